@@ -1,11 +1,17 @@
 import NasimModel.Generated.SrcGen
 import NasimModel.Props.C15
+import NasimModel.Proofs.SrcTie
 /-!
 # Source tie: the deterministic skeleton of the generator
 
 `ScenarioGenerator._generate_subnets` translated from its source text (`Generated/SrcGen.lean`) is the model's
 `genSubnets` with the module's own constants, so `C15_subnets_partition` and the host counts speak about the
 translated source; the generated OS / service / process name lists are `0 … n-1` (names are indices).
+`_generate_topology` (a zero matrix written by a double loop over the first four subnets and a loop over the binary
+tree of user subnets) is the model's closed form `genTopo` (`Src_generate_topology`): matrices of a relation
+(`mk01`), a write adds one pair to the relation (`wr_mk01`), a loop adds the pairs its iterations hit (`fold_mk01`),
+and the pairs hit are exactly `adj` (linear arithmetic) — so `C15_topology_symmetric / _reflexive / C15_only_dmz_public`
+speak about the translated source.
 -/
 open NASim NASim.Gen
 namespace NASim
@@ -21,5 +27,250 @@ theorem Src_generate_names (n : Nat) :
     SrcGen.ScenarioGenerator._generate_os n = List.range n ∧
     SrcGen.ScenarioGenerator._generate_services n = List.range n ∧
     SrcGen.ScenarioGenerator._generate_processes n = List.range n := ⟨rfl, rfl, rfl⟩
+
+/-- the 0/1 matrix of a relation -/
+def mk01 (f : Nat → Nat → Bool) (n : Nat) : List (List Int) :=
+  (List.range n).map fun r => (List.range n).map fun c => if f r c then 1 else 0
+
+theorem mk01_congr (f g : Nat → Nat → Bool) (n : Nat) (h : ∀ r c, r < n → c < n → f r c = g r c) :
+    mk01 f n = mk01 g n := by
+  unfold mk01
+  apply List.map_congr_left
+  intro r hr
+  apply List.map_congr_left
+  intro c hc
+  rw [h r c (List.mem_range.mp hr) (List.mem_range.mp hc)]
+
+theorem wr_mk01 (f : Nat → Nat → Bool) (n i j : Nat) (hi : i < n) (hj : j < n) :
+    PyRt.wr (mk01 f n) i j = mk01 (fun r c => f r c || (r == i && c == j)) n := by
+  unfold PyRt.wr mk01
+  apply List.ext_getElem
+  · simp
+  · intro r h1 h2
+    have hr : r < n := by simpa using h2
+    simp only [List.getElem_map, List.getElem_range]
+    by_cases hri : r = i
+    · subst hri
+      rw [List.getElem_set_self]
+      simp only [List.getD_eq_getElem?_getD, List.getElem?_map, List.getElem?_range hr, Option.map_some, Option.getD_some]
+      apply List.ext_getElem
+      · simp
+      · intro c h3 h4
+        have hc : c < n := by simpa using h4
+        simp only [List.getElem_map, List.getElem_range, List.getElem_set]
+        by_cases hcj : j = c
+        · subst hcj; simp
+        · have : (c == j) = false := by simpa using fun e => hcj e.symm
+          simp [hcj, this]
+    · rw [List.getElem_set_ne (fun e => hri e.symm)]
+      simp only [List.getElem_map, List.getElem_range]
+      apply List.map_congr_left
+      intro c _
+      have : (r == i) = false := by simpa using hri
+      simp [this]
+
+theorem zeros_mk01 (n : Nat) : PyRt.zerosI n n = mk01 (fun _ _ => false) n := by
+  unfold PyRt.zerosI mk01
+  apply List.ext_getElem
+  · simp
+  · intro r h1 h2
+    simp only [List.getElem_replicate, List.getElem_map]
+    apply List.ext_getElem
+    · simp
+    · intro c h3 h4
+      simp
+
+/-- a fold of steps each of which adds the positions `hit x` to the relation -/
+theorem fold_mk01 {α : Type} (l : List α) (n : Nat) (step : α → List (List Int) → List (List Int))
+    (hit : α → Nat → Nat → Bool)
+    (hstep : ∀ x ∈ l, ∀ g, step x (mk01 g n) = mk01 (fun r c => g r c || hit x r c) n) (f : Nat → Nat → Bool) :
+    l.foldl (fun T x => step x T) (mk01 f n) = mk01 (fun r c => f r c || l.any (fun x => hit x r c)) n := by
+  induction l generalizing f with
+  | nil => simp
+  | cons x xs ih =>
+    simp only [List.foldl_cons]
+    rw [hstep x (List.mem_cons_self ..) f, ih (fun y hy => hstep y (List.mem_cons_of_mem _ hy))]
+    apply mk01_congr
+    intro r c _ _
+    simp [Bool.or_assoc]
+theorem any_range_pick (k r : Nat) (p : Nat → Bool) :
+    (List.range k).any (fun x => (r == x) && p x) = (decide (r < k) && p r) := by
+  induction k with
+  | zero => simp
+  | succ k ih =>
+    rw [List.range_succ, List.any_append, ih]
+    by_cases h1 : r < k
+    · have : (r == k) = false := by simpa using Nat.ne_of_lt h1
+      simp [h1, this, Nat.lt_succ_of_lt h1]
+    · by_cases h2 : r = k
+      · subst h2; simp
+      · have : (r == k) = false := by simpa using h2
+        have h3 : ¬ r < k + 1 := by omega
+        simp [h1, this, h3]
+
+theorem any_range'_pick (a m r : Nat) (p : Nat → Bool) :
+    (List.range' a m).any (fun x => (r == x) && p x) = (decide (a ≤ r ∧ r < a + m) && p r) := by
+  induction m generalizing a with
+  | zero => simp; intro h; omega
+  | succ m ih =>
+    rw [List.range'_succ, List.any_cons, ih]
+    by_cases h1 : r = a
+    · subst h1; simp
+    · have : (r == a) = false := by simpa using h1
+      simp only [this, Bool.false_and, Bool.false_or]
+      congr 1
+      apply decide_eq_decide.mpr
+      omega
+
+theorem forEach_next_ite2 {α σ : Type} (l : List α) (st : σ) (a b : α → Bool) (g : α → σ → σ) :
+    PyRt.forEach (β := Empty) l st (fun x s => if a x = true then .next s else if b x = true then .next s else .next (g x s)) =
+      .next (l.foldl (fun s x => if a x = true then s else if b x = true then s else g x s) st) := by
+  rw [← forEach_next]
+  apply forEach_congr
+  intro x _ t
+  by_cases ha : a x = true
+  · simp [ha]
+  · by_cases hb : b x = true <;> simp [ha, hb]
+
+/-- the positions the first double loop writes (rows and columns 0…3) -/
+def hitC (row col r c : Nat) : Bool :=
+  (r == row) && ((c == col) && (!(row == 0 && decide (col > 1)) && !(decide (row > 1) && col == 0)))
+/-- the positions one iteration of the tree loop writes -/
+def hitT (n row r c : Nat) : Bool :=
+  (r == row) && ((c == row) || (decide (row - 3 > 0) && c == (row - 3 - 1) / 2 + 3)
+    || (decide (2 * (row - 3) + 1 + 3 < n) && c == 2 * (row - 3) + 1 + 3)
+    || (decide (2 * (row - 3) + 2 + 3 < n) && c == 2 * (row - 3) + 2 + 3))
+
+theorem Src_generate_topology (subnets : List Nat) (h4 : 4 ≤ subnets.length) :
+    SrcGen.ScenarioGenerator._generate_topology subnets = genTopo subnets.length := by
+  unfold SrcGen.ScenarioGenerator._generate_topology SrcGen.USER SrcGen.DMZ SrcGen.INTERNET
+  generalize subnets.length = n at h4
+  simp only [forEach_next_ite2, forEach_next, zeros_mk01]
+  -- first double loop
+  have hcol : ∀ row, row < 4 → ∀ col ∈ List.range (3 + 1), ∀ g,
+      (if (row == 0 && decide (col > 1)) = true then mk01 g n
+       else if (decide (row > 1) && col == 0) = true then mk01 g n else PyRt.wr (mk01 g n) row col) =
+      mk01 (fun r c => g r c || hitC row col r c) n := by
+    intro row hrow col hcol g
+    have hc : col < 4 := by simpa using hcol
+    by_cases c1 : (row == 0 && decide (col > 1)) = true
+    · simp only [c1, if_true]
+      apply mk01_congr; intro r c _ _; simp [hitC, c1]
+    · by_cases c2 : (decide (row > 1) && col == 0) = true
+      · simp only [c1, c2, if_true, Bool.false_eq_true, if_false]
+        apply mk01_congr; intro r c _ _; simp [hitC, c2]
+      · simp only [c1, c2, Bool.false_eq_true, if_false]
+        rw [wr_mk01 g n row col (by omega) (by omega)]
+        apply mk01_congr; intro r c _ _
+        simp only [Bool.not_eq_true] at c1 c2
+        simp [hitC, c1, c2]
+  have hrow : ∀ row ∈ List.range (3 + 1), ∀ g,
+      (List.range (3 + 1)).foldl (fun T col =>
+        if (row == 0 && decide (col > 1)) = true then T
+        else if (decide (row > 1) && col == 0) = true then T else PyRt.wr T row col) (mk01 g n) =
+      mk01 (fun r c => g r c || (List.range (3 + 1)).any (fun col => hitC row col r c)) n := by
+    intro row hr g
+    have hr' : row < 4 := by simpa using hr
+    exact fold_mk01 (List.range (3 + 1)) n (fun col T =>
+        if (row == 0 && decide (col > 1)) = true then T
+        else if (decide (row > 1) && col == 0) = true then T else PyRt.wr T row col)
+      (fun col => hitC row col) (fun col hc g => hcol row hr' col hc g) g
+  have hblock := fold_mk01 (List.range (3 + 1)) n (fun row T => (List.range (3 + 1)).foldl (fun T col =>
+        if (row == 0 && decide (col > 1)) = true then T
+        else if (decide (row > 1) && col == 0) = true then T else PyRt.wr T row col) T)
+      (fun row r c => (List.range (3 + 1)).any (fun col => hitC row col r c)) (fun row hr g => hrow row hr g) (fun _ _ => false)
+  simp only [hblock]
+  -- the tree loop
+  have hT : ∀ row ∈ List.range' 3 (n - 3), ∀ g,
+      (if decide (2 * (row - 3) + 2 + 3 < n) = true then
+          PyRt.wr
+            (if decide (2 * (row - 3) + 1 + 3 < n) = true then
+              PyRt.wr
+                (if decide (row - 3 > 0) = true then PyRt.wr (PyRt.wr (mk01 g n) row row) row ((row - 3 - 1) / 2 + 3)
+                else PyRt.wr (mk01 g n) row row)
+                row (2 * (row - 3) + 1 + 3)
+            else
+              if decide (row - 3 > 0) = true then PyRt.wr (PyRt.wr (mk01 g n) row row) row ((row - 3 - 1) / 2 + 3) else PyRt.wr (mk01 g n) row row)
+            row (2 * (row - 3) + 2 + 3)
+        else
+          if decide (2 * (row - 3) + 1 + 3 < n) = true then
+            PyRt.wr
+              (if decide (row - 3 > 0) = true then PyRt.wr (PyRt.wr (mk01 g n) row row) row ((row - 3 - 1) / 2 + 3) else PyRt.wr (mk01 g n) row row)
+              row (2 * (row - 3) + 1 + 3)
+          else if decide (row - 3 > 0) = true then PyRt.wr (PyRt.wr (mk01 g n) row row) row ((row - 3 - 1) / 2 + 3) else PyRt.wr (mk01 g n) row row) =
+      mk01 (fun r c => g r c || hitT n row r c) n := by
+    intro row hrow g
+    have hr : 3 ≤ row ∧ row < n := by
+      rw [List.mem_range'_1] at hrow; omega
+    have hpar : (row - 3 - 1) / 2 + 3 < n := by omega
+    by_cases d1 : 2 * (row - 3) + 2 + 3 < n <;> by_cases d2 : 2 * (row - 3) + 1 + 3 < n <;> by_cases d3 : row - 3 > 0 <;>
+      simp only [d1, d2, d3, decide_true, decide_false, if_true, if_false, Bool.false_eq_true] <;>
+      (repeat rw [wr_mk01 _ n _ _ (by omega) (by omega)]) <;>
+      (apply mk01_congr; intro r c _ _; simp [hitT, d1, d2, d3, Bool.or_assoc, Bool.and_or_distrib_left])
+  have htree := fun f => fold_mk01 (List.range' 3 (n - 3)) n (fun x s =>
+        if decide (2 * (x - 3) + 2 + 3 < n) = true then
+          PyRt.wr
+            (if decide (2 * (x - 3) + 1 + 3 < n) = true then
+              PyRt.wr
+                (if decide (x - 3 > 0) = true then PyRt.wr (PyRt.wr s x x) x ((x - 3 - 1) / 2 + 3) else PyRt.wr s x x)
+                x (2 * (x - 3) + 1 + 3)
+            else if decide (x - 3 > 0) = true then PyRt.wr (PyRt.wr s x x) x ((x - 3 - 1) / 2 + 3) else PyRt.wr s x x)
+            x (2 * (x - 3) + 2 + 3)
+        else
+          if decide (2 * (x - 3) + 1 + 3 < n) = true then
+            PyRt.wr
+              (if decide (x - 3 > 0) = true then PyRt.wr (PyRt.wr s x x) x ((x - 3 - 1) / 2 + 3) else PyRt.wr s x x) x
+              (2 * (x - 3) + 1 + 3)
+          else if decide (x - 3 > 0) = true then PyRt.wr (PyRt.wr s x x) x ((x - 3 - 1) / 2 + 3) else PyRt.wr s x x)
+      (fun row => hitT n row) hT f
+  simp only [htree]
+  have hgen : genTopo n = mk01 adj n := rfl
+  rw [hgen]
+  have pick1 : ∀ r c, ((List.range (3 + 1)).any fun x => (List.range (3 + 1)).any fun col => hitC x col r c) =
+      (decide (r < 4) && (decide (c < 4) && (!(r == 0 && decide (c > 1)) && !(decide (r > 1) && c == 0)))) := by
+    intro r c
+    unfold hitC
+    have e1 : ∀ x, ((List.range (3 + 1)).any fun col => (r == x) && ((c == col) && (!(x == 0 && decide (col > 1)) && !(decide (x > 1) && col == 0)))) =
+        ((r == x) && (List.range (3 + 1)).any fun col => (c == col) && (!(x == 0 && decide (col > 1)) && !(decide (x > 1) && col == 0))) := by
+      intro x
+      cases hrx : (r == x) <;> simp
+    simp only [e1, any_range_pick]
+  have pick2 : ∀ r c, ((List.range' 3 (n - 3)).any fun x => hitT n x r c) =
+      (decide (3 ≤ r ∧ r < 3 + (n - 3)) && ((c == r) || (decide (r - 3 > 0) && c == (r - 3 - 1) / 2 + 3)
+        || (decide (2 * (r - 3) + 1 + 3 < n) && c == 2 * (r - 3) + 1 + 3)
+        || (decide (2 * (r - 3) + 2 + 3 < n) && c == 2 * (r - 3) + 2 + 3))) := by
+    intro r c
+    unfold hitT
+    exact any_range'_pick 3 (n - 3) r _
+  by_cases hn : n = 4
+  · subst hn
+    simp only [beq_self_eq_true, if_true]
+    apply mk01_congr
+    intro r c hr hc
+    rw [pick1]
+    unfold adj
+    have h1 : r < 4 ∧ c < 4 := ⟨hr, hc⟩
+    simp only [h1, and_self, if_true, Bool.false_or]
+    by_cases a : r = 0 <;> by_cases b : c > 1 <;> by_cases c' : r > 1 <;> by_cases d : c = 0 <;> simp [hr, hc, a, b, c', d] <;> omega
+  · have hn' : (n == 3 + 1) = false := by simpa using hn
+    simp only [hn', Bool.false_eq_true, if_false]
+    apply mk01_congr
+    intro r c hr hc
+    rw [pick1, pick2]
+    unfold adj
+    rw [Bool.eq_iff_iff]
+    split
+    · simp only [Bool.or_eq_true, Bool.and_eq_true, decide_eq_true_eq, beq_iff_eq, beq_eq_false_iff_ne, ne_eq, Bool.not_eq_true', Bool.false_eq_true,
+        false_or, Bool.and_eq_false_iff, decide_eq_false_iff_not, Bool.not_eq_eq_eq_not, Bool.not_true, Bool.or_eq_false_iff,
+        not_or, not_and]
+      omega
+    · split
+      · simp only [Bool.or_eq_true, Bool.and_eq_true, decide_eq_true_eq, beq_iff_eq, beq_eq_false_iff_ne, ne_eq, Bool.not_eq_true', Bool.false_eq_true,
+          false_or, Bool.and_eq_false_iff, decide_eq_false_iff_not]
+        rw [iff_false]
+        omega
+      · simp only [Bool.or_eq_true, Bool.and_eq_true, decide_eq_true_eq, beq_iff_eq, beq_eq_false_iff_ne, ne_eq, Bool.not_eq_true', Bool.false_eq_true,
+          false_or, Bool.and_eq_false_iff, decide_eq_false_iff_not]
+        omega
 
 end NASim
